@@ -16,6 +16,7 @@ import (
 	"runtime/debug"
 	"sort"
 	"strconv"
+	"time"
 )
 
 type ruleFn func(c *Ctx)
@@ -83,6 +84,37 @@ func main() {
 	if tier != "quick" && tier != "thorough" {
 		fmt.Println("ERROR: tier must be quick or thorough")
 		os.Exit(2)
+	}
+	if prop == "ALL" && *variantID == "" && onlyKey == "" {
+		// one load, every property in turn (used for sweeps over seeded changes); each property
+		// still gets its own obligations, verdict lines and evidence file
+		l, err := loadRepo(*repo, nil)
+		var ids []string
+		for id := range props {
+			ids = append(ids, id)
+		}
+		sort.Strings(ids)
+		rc := 0
+		for _, id := range ids {
+			procStart = time.Now()
+			fbCache = nil
+			c := newCtx(id, tier, l, *verif)
+			c.quiet = *quiet
+			if err != nil {
+				c.L = &Loaded{Root: *repo}
+				c.doc("load", "the repository loads and type-checks with zero errors")
+				c.fail("load", "packages", "", err.Error())
+			} else {
+				c.ok("load", "packages", "", fmt.Sprintf("%d repository packages", len(l.Pkgs)))
+				for _, r := range props[id].rules {
+					runRule(c, r)
+				}
+			}
+			if x := c.finish(""); x > rc {
+				rc = x
+			}
+		}
+		os.Exit(rc)
 	}
 	pd := props[prop]
 	if pd == nil {
